@@ -115,6 +115,16 @@ def shard_files(prefix, n):
     return [prefix if n == 1 else "%s.%d" % (prefix, i) for i in range(n)]
 
 
+AUX_OPS = ("RecordAttempt", "ListAttempts", "CaptureTrend", "ListTrend")
+
+
+def tv_module_for(ops):
+    """Schedules that touch the auxiliary logs are validated by QueueAuxTrace (QueueTrace + QueueAux), all others by QueueTrace."""
+    if any(op.get("op") in AUX_OPS for op in ops):
+        return {"module": "QueueAuxTrace", "spec": "AuxSpec"}
+    return {}
+
+
 def execute_and_validate(ctx, sched_file, tag, backends="memory,sqlite", reference=False, sqlite_sample=1, shards=None):
     shards = shards or vf.NCPU
     out = os.path.join(ctx.shm, "trace-" + tag)
@@ -141,10 +151,68 @@ def drive_and_validate(ctx, tag, profile, n, ops, seed, ids=6, backends="memory,
         args.append("-reference")
     info = json.loads(vf.hkv(args).strip().splitlines()[-1])
     files = [f for f in shard_files(out, shards) if os.path.exists(f) and os.path.getsize(f) > 0]
-    res = vf.tv_run(ctx, files, name="tv-" + tag)
+    res = vf.tv_run(ctx, files, name="tv-" + tag, **({"module": "QueueAuxTrace", "spec": "AuxSpec"} if profile == "aux" else {}))
     ctx.cov["traces_validated_against_impl"] += info["traces"]
     ctx.cov["schedules_executed"] += info["traces"]
+    if profile == "aux":
+        aux_coverage(ctx, files)
     return res, info, sched
+
+
+def aux_mc(ctx):
+    """Design-level model checking of the auxiliary-log contract (QueueAuxMC): the listing predicates used by the trace
+    specification are satisfiable and tight, trend counts partition, the logs are append-only and independent of the messages."""
+    r2 = {"Routes": {"/r1", "/r2"}}
+    if ctx.quick:
+        runs = [("aux_att", dict(r2, Ids=set(), Targets={"t1"}), dict(MaxAtt=2, MaxCap=0, MaxNow=3), ["ListingExists", "ListingTight"]),
+                ("aux_trend", dict(r2, Ids={"m1"}, Targets={"t1", "t2"}), dict(MaxAtt=0, MaxCap=2, MaxNow=3), ["TrendListingExists", "TrendPartition"])]
+    else:
+        runs = [("aux_att", dict(r2, Ids=set(), Targets={"t1"}), dict(MaxAtt=3, MaxCap=0, MaxNow=3), ["ListingExists", "ListingTight"]),
+                ("aux_trend", dict(r2, Ids={"m1"}, Targets={"t1", "t2"}), dict(MaxAtt=0, MaxCap=3, MaxNow=4), ["TrendListingExists", "TrendPartition"]),
+                ("aux_trend2", dict(r2, Ids={"m1", "m2"}, Targets={"t1", "t2"}), dict(MaxAtt=0, MaxCap=1, MaxNow=2), ["TrendListingExists", "TrendPartition"])]
+    for name, consts, plain, invs in runs:
+        r = vf.mc_run(ctx, name, "QueueAuxMC", consts, plain, invariants=invs, properties=["AppendOnly"], spec="MCSpec", timeout=600, workers=8)
+        vf.mc_expect_ok(ctx, r, "QueueAuxMC/" + name)
+
+
+def aux_coverage(ctx, files):
+    """Non-vacuity of the auxiliary-log part: listings that were cut by the limit, filtered, tie-ordered, generated ids,
+    trend listings global / filtered / truncated / windowed, captures that pruned."""
+    c = {"att_recorded": 0, "att_generated_id": 0, "att_listed_items": 0, "att_list_limited": 0, "att_list_filtered": 0, "att_list_tie": 0,
+         "trend_captures": 0, "trend_capture_pruned": 0, "trend_list_global": 0, "trend_list_filtered": 0, "trend_list_truncated": 0,
+         "trend_list_window": 0, "trend_listed_items": 0}
+    for f in files:
+        prev = None
+        for line in open(f):
+            e = json.loads(line)
+            ev = e["ev"]
+            if ev == "RecordAttempt":
+                c["att_recorded"] += 1
+                c["att_generated_id"] += 1 if e["a"]["blank"] else 0
+            elif ev == "ListAttempts":
+                items = e["r"]["items"]
+                a = e["a"]
+                c["att_listed_items"] += len(items)
+                lim = 100 if a["limit"] <= 0 else min(a["limit"], 1000)
+                c["att_list_limited"] += 1 if len(items) == lim else 0
+                c["att_list_filtered"] += 1 if items and (a["rt"] or a["tg"] or a["ev"] or a["out"] or a["before"]) else 0
+                c["att_list_tie"] += 1 if any(items[i]["at"] == items[i + 1]["at"] for i in range(len(items) - 1)) else 0
+            elif ev == "CaptureTrend":
+                c["trend_captures"] += 1
+                c["trend_capture_pruned"] += 1 if prev is not None and len(prev) != len(e["post"]) else 0
+            elif ev == "ListTrend":
+                a = e["a"]
+                items = e["r"]["items"]
+                c["trend_listed_items"] += len(items)
+                c["trend_list_global" if not (a["rtn"] or a["tgn"]) else "trend_list_filtered"] += 1 if items else 0
+                c["trend_list_truncated"] += 1 if e["r"]["trunc"] else 0
+                c["trend_list_window"] += 1 if items and (a["since"] or a["until"]) else 0
+            prev = e.get("post") if ev != "Reset" else None
+    for k, v in c.items():
+        ctx.count("aux_" + k, v)
+    empty = [k for k, v in c.items() if v == 0]
+    if empty:
+        raise vf.Infra("vacuous auxiliary-log run: nothing counted for %s" % empty)
 
 
 def find_schedule(sched_file, name):
@@ -205,7 +273,7 @@ def triage(ctx, results, sched_file, reference=False, max_report=12):
         if reference:
             args.append("-reference")
         vf.hkv(args)
-        rr = vf.tv_run(ctx, [out], name="tv-repro")[0]
+        rr = vf.tv_run(ctx, [out], name="tv-repro", **tv_module_for(sched["ops"]))[0]
         if rr["error"]:
             raise vf.Infra("reproduction run errored: %s" % rr["error"])
         revents = vf.load_trace(out)
@@ -242,7 +310,7 @@ def replay(ctx, path):
     if obj.get("reference"):
         args.append("-reference")
     vf.hkv(args)
-    rr = vf.tv_run(ctx, [out], name="tv-replay")[0]
+    rr = vf.tv_run(ctx, [out], name="tv-replay", **tv_module_for(obj["schedule"]["ops"]))[0]
     events = vf.load_trace(out)
     if rr["fails"] or rr["matched"] < rr["total"]:
         for (line, ev, c) in rr["fails"]:
